@@ -31,6 +31,10 @@ CLAIMS = {
   "The recursive-descent expression parser is under contract: Token.Precedence and BuildOp are proved equal to the documented operator table, and parseBinaryExpr and its eleven helpers are proved, for every token sequence, to build only binary nodes whose left operand binds at least as strongly and whose right operand binds strictly more strongly than the node's operator (ghost binding level, parentheses / calls / indexes / lists at the top level), to stop exactly in front of a weaker operator, and to parse BETWEEN bounds above the comparison level. Obligations are generated from the go/ssa form of the working tree on every run (defer, closures and the constant operator map included) and discharged by z3 / cvc5.",
   TRUST + "Covers the binding-strength / associativity half of the property. The String()/re-parse round trip, case folding and in-order token consumption are not covered (see evidence). The ghost level is maintained by ghost statements in the contract file.",
   "DESIGN.md section 5, C15"),
+ "C16": ("proof",
+  "lexer.go is under contract: Lexer.Split is proved, for every query string, to emit only tokens whose offset and text are exactly (or, for words, the lower-case form of) the query bytes they stand for, quoted literals being the bytes between their two quote characters; buildToken's classification equals the documented keyword / number / float / name table. Scanner-state loop invariant, one obligation per append site, per-path invariant preservation; string theory with sub/at/cat/blen axioms; discharged by z3 / cvc5.",
+  TRUST + "strings.ToLower / TrimSpace / TrimLeftFunc and strconv parsing are modelled axiomatically (T-STD). Spacing-irrelevance (a two-run relation) and 'no earlier closing quote inside a literal' are not covered.",
+  "DESIGN.md section 5, C16"),
  "C17": ("proof",
   "errors.go is under contract: outputQueryAndErrPos is proved, for every query text, offset and padding, to render a window of the trimmed query that contains the offset and to place the caret under the byte at that offset of the original query (string theory with sub/at/cat/blen axioms; loop invariants over the padding loops), without any out-of-range slice; Error() of a bound SyntaxError/ExecuteError starts with that rendering; the constructors carry the given position; every SyntaxError of the expression parser carries -1, 0 or a token start (bounded-existential witness).",
   TRUST + "strings.TrimSpace / TrimLeftFunc / fmt.Sprintf are modelled axiomatically (T-STD). Statement-level parser errors, checker and execution-time positions are not yet covered; token positions inside the query are the lexer's contract (C16).",
